@@ -503,3 +503,387 @@ Proof.
   pose proof (init_from inputs _ W0 HN) as W. cbn zeta in W. cbn [hnodes hedges hout hsz hnext Datatypes.app Nat.add] in W.
   exact W.
 Qed.
+
+(* ---------- remove_edge ---------- *)
+Definition re_step (e0 : ix) (nd : list (nat * list ix)) (i : nat) : list (nat * list ix) :=
+  match aget i nd with None => nd | Some l => aset i (remove_nat e0 l) nd end.
+
+Lemma remove_edge_unfold e g :
+  remove_edge e g = mkHG (fold_left (re_step e) (get_edge g e) (hnodes g)) (adel e (hedges g)) (hout g) (hsz g) (hnext g).
+Proof. reflexivity. Qed.
+
+Lemma re_fold e0 ks : forall nd,
+  let nd' := fold_left (re_step e0) ks nd in
+  akeys nd' = akeys nd /\
+  forall k, getL nd' k = if memb k ks then remove_nat e0 (getL nd k) else getL nd k.
+Proof.
+  induction ks as [|i ks IH]; intros nd; cbn [fold_left]; [cbn; split; reflexivity|].
+  destruct (IH (re_step e0 nd i)) as [A B]. cbn zeta in *.
+  assert (Hk : akeys (re_step e0 nd i) = akeys nd).
+  { unfold re_step. destruct (aget i nd) as [l|] eqn:E; [|reflexivity].
+    apply d_keys_set_in. destruct (in_dec Nat.eq_dec i (akeys nd)) as [H|H]; [exact H|].
+    apply d_get_none in H. congruence. }
+  assert (Hg : forall k, getL (re_step e0 nd i) k = if k =? i then remove_nat e0 (getL nd i) else getL nd k).
+  { intros k. unfold re_step. destruct (aget i nd) as [l|] eqn:E.
+    - rewrite getL_set. destruct (k =? i); [|reflexivity]. unfold getL. rewrite E. reflexivity.
+    - destruct (Nat.eqb_spec k i) as [->|]; [|reflexivity]. unfold getL. rewrite E. reflexivity. }
+  split; [rewrite A; exact Hk|]. intros k. rewrite B, !Hg. cbn [memb existsb]. fold (memb k ks).
+  destruct (Nat.eqb_spec k i) as [->|Hne]; cbn [orb].
+  - destruct (memb i ks); [apply remove_nat_idem|reflexivity].
+  - reflexivity.
+Qed.
+
+Lemma nonempty_del {B} k (d : list (nat * list B)) : NoDup (akeys d) -> nonempty_vals d -> nonempty_vals (adel k d).
+Proof.
+  intros ND H k' l Hl. destruct (Nat.eq_dec k' k) as [->|Hne].
+  - rewrite d_get_del_eq in Hl by exact ND. discriminate.
+  - rewrite d_get_del_ne in Hl by exact Hne. apply (H k' l Hl).
+Qed.
+
+Theorem remove_edge_spec e0 g : wf_hg g ->
+  let g' := remove_edge e0 g in
+  akeys (hnodes g') = akeys (hnodes g) /\
+  (forall k, get_node g' k = remove_nat e0 (get_node g k)) /\
+  (forall e, get_edge g' e = if Nat.eqb e e0 then [] else get_edge g e) /\
+  hsz g' = hsz g /\ hout g' = hout g /\ hnext g' = hnext g /\ wf_hg g'.
+Proof.
+  intros W. rewrite remove_edge_unfold. cbn zeta.
+  destruct (re_fold e0 (get_edge g e0) (hnodes g)) as [A B]. cbn zeta in *.
+  set (nd' := fold_left (re_step e0) (get_edge g e0) (hnodes g)) in *.
+  assert (HN : forall k, getL nd' k = remove_nat e0 (get_node g k)).
+  { intros k. rewrite B. change (getL (hnodes g) k) with (get_node g k).
+    destruct (memb k (get_edge g e0)) eqn:E; [reflexivity|].
+    symmetry. apply remove_nat_notin. intros Hin. apply (wf_inc g W) in Hin. apply memb_false in E. contradiction. }
+  assert (HE : forall e, getL (adel e0 (hedges g)) e = if e =? e0 then [] else get_edge g e).
+  { intros e. destruct (Nat.eqb_spec e e0) as [->|Hne]; [apply getL_del_eq, (wf_nd_edges g W)|apply getL_del_ne, Hne]. }
+  split; [exact A|]. split; [exact HN|]. split; [exact HE|]. split; [reflexivity|]. split; [reflexivity|]. split; [reflexivity|].
+  apply wf_intro.
+  - pose proof (wf_nd_nodes g W) as ND. rewrite <- A in ND. exact ND.
+  - apply d_nodup_del, (wf_nd_edges g W).
+  - intros k. rewrite HN. apply nodup_remove_nat, (wf_node_nodup g W).
+  - intros e. rewrite HE. destruct (e =? e0); [constructor|apply (wf_edge_nodup g W)].
+  - apply nonempty_del; [apply (wf_nd_edges g W)|apply (wf_edge_nonempty g W)].
+  - intros e k. rewrite HE, HN, in_remove_nat.
+    destruct (Nat.eqb_spec e e0) as [->|Hne]; [cbn; tauto|]. rewrite (wf_inc g W). tauto.
+  - intros k Hk. apply (wf_next g W). apply d_mem_in.
+    assert (Hin : In k (akeys nd')) by (apply d_mem_in, Hk). rewrite A in Hin. exact Hin.
+Qed.
+
+(* removing a list of edges *)
+Definition remove_all (dels : list ix) (l : list ix) : list ix := filter (fun e => negb (memb e dels)) l.
+
+Lemma remove_all_cons d dels l : remove_all (d :: dels) l = remove_all dels (remove_nat d l).
+Proof.
+  unfold remove_all, remove_nat. rewrite filter_filter_comm_and. apply filter_ext. intros e.
+  cbn [memb existsb]. fold (memb e dels). destruct (e =? d), (memb e dels); reflexivity.
+Qed.
+Lemma in_remove_all dels l e : In e (remove_all dels l) <-> In e l /\ ~ In e dels.
+Proof. unfold remove_all. rewrite filter_In, negb_true_iff, memb_false. tauto. Qed.
+
+Lemma remove_all_nil l : remove_all [] l = l.
+Proof. unfold remove_all. cbn. induction l as [|x l IHl]; cbn; [reflexivity|]. f_equal. exact IHl. Qed.
+
+Theorem remove_edges_spec dels : forall g, wf_hg g ->
+  let g' := fold_left (fun g e => remove_edge e g) dels g in
+  akeys (hnodes g') = akeys (hnodes g) /\
+  (forall k, get_node g' k = remove_all dels (get_node g k)) /\
+  (forall e, get_edge g' e = if memb e dels then [] else get_edge g e) /\
+  hsz g' = hsz g /\ hout g' = hout g /\ hnext g' = hnext g /\ wf_hg g'.
+Proof.
+  induction dels as [|d dels IH]; intros g W; cbn [fold_left].
+  - cbn zeta. split; [reflexivity|]. split; [intros k; symmetry; apply remove_all_nil|].
+    split; [intros e; reflexivity|]. split; [reflexivity|]. split; [reflexivity|]. split; [reflexivity|exact W].
+  - destruct (remove_edge_spec d g W) as (A1 & N1 & E1 & S1 & O1 & X1 & W1). cbn zeta in *.
+    destruct (IH (remove_edge d g) W1) as (A2 & N2 & E2 & S2 & O2 & X2 & W2). cbn zeta in *.
+    split; [rewrite A2; exact A1|]. split; [|split; [|split; [rewrite S2; exact S1|split; [rewrite O2; exact O1|split; [rewrite X2; exact X1|exact W2]]]]].
+    + intros k. rewrite N2, N1, remove_all_cons. reflexivity.
+    + intros e. rewrite E2, E1. cbn [memb existsb]. fold (memb e dels).
+      destruct (e =? d), (memb e dels); reflexivity.
+Qed.
+
+Lemma wf_set_sz g sz : wf_hg g -> wf_hg (mkHG (hnodes g) (hedges g) (hout g) sz (hnext g)).
+Proof. intros W. destruct W. constructor; assumption. Qed.
+
+(* ---------- compress ---------- *)
+Lemma zget_zset_hg k v d e : zget e (zset k v d) = if Nat.eqb e k then v else zget e d.
+Proof.
+  induction d as [|[k' w] d IH]; cbn.
+  - destruct (Nat.eqb_spec k e) as [->|]; [rewrite Nat.eqb_refl; reflexivity|].
+    destruct (Nat.eqb_spec e k); [congruence|reflexivity].
+  - destruct (Nat.eqb_spec k' k) as [->|Hk]; cbn.
+    + destruct (Nat.eqb_spec k e) as [->|]; [rewrite Nat.eqb_refl; reflexivity|].
+      destruct (Nat.eqb_spec e k); [congruence|reflexivity].
+    + destruct (Nat.eqb_spec k' e) as [->|].
+      * destruct (Nat.eqb_spec e k); [congruence|reflexivity].
+      * exact IH.
+Qed.
+
+Lemma compress_group_spec chi es g : wf_hg g ->
+  let g' := compress_group chi g es in
+  akeys (hnodes g') = akeys (hnodes g) /\
+  (forall k, get_node g' k = remove_all (tl es) (get_node g k)) /\
+  (forall e, get_edge g' e = if memb e (tl es) then [] else get_edge g e) /\
+  hout g' = hout g /\ hnext g' = hnext g /\ wf_hg g' /\
+  (forall e, zget e (hsz g') = match es with
+                               | e_keep :: _ :: _ => if Nat.eqb e e_keep then Z.min (edges_size g es) chi else zget e (hsz g)
+                               | _ => zget e (hsz g)
+                               end).
+Proof.
+  intros W.
+  assert (Triv : forall l : list ix, remove_all [] l = l).
+  { intros l. unfold remove_all. cbn. induction l as [|x l IHl]; cbn; [reflexivity|]. f_equal. exact IHl. }
+  destruct es as [|e_keep [|e2 es]].
+  - cbn [compress_group tl]. cbn zeta. split; [reflexivity|]. split; [intros k; symmetry; apply Triv|].
+    split; [intros e; reflexivity|]. split; [reflexivity|]. split; [reflexivity|]. split; [exact W|reflexivity].
+  - cbn [compress_group tl]. cbn zeta. split; [reflexivity|]. split; [intros k; symmetry; apply Triv|].
+    split; [intros e; reflexivity|]. split; [reflexivity|]. split; [reflexivity|]. split; [exact W|reflexivity].
+  - unfold compress_group. cbn [tl].
+    destruct (remove_edges_spec (e2 :: es) g W) as (A & N & E & S & O & X & W'). cbn zeta in *.
+    set (g1 := fold_left (fun g e => remove_edge e g) (e2 :: es) g) in *.
+    split; [exact A|]. split; [exact N|]. split; [exact E|]. split; [exact O|]. split; [exact X|].
+    split; [apply (wf_set_sz g1 _ W')|].
+    intros e. cbn [hsz]. rewrite zget_zset_hg. rewrite S. reflexivity.
+Qed.
+
+(* ---------- groups of parallel edges ---------- *)
+Definition gdels (GL : list (list ix)) : list ix := flat_map (@tl ix) GL.
+
+Lemma memb_app x l1 l2 : memb x (l1 ++ l2) = memb x l1 || memb x l2.
+Proof. unfold memb. apply existsb_app. Qed.
+Lemma remove_all_app d1 d2 l : remove_all (d1 ++ d2) l = remove_all d2 (remove_all d1 l).
+Proof.
+  unfold remove_all. rewrite filter_filter_comm_and. apply filter_ext. intros e.
+  rewrite memb_app. destruct (memb e d1), (memb e d2); reflexivity.
+Qed.
+
+Theorem compress_groups_spec chi (GL : list (list ix)) : forall g, wf_hg g ->
+  let g' := fold_left (fun g es => compress_group chi g es) GL g in
+  akeys (hnodes g') = akeys (hnodes g) /\
+  (forall k, get_node g' k = remove_all (gdels GL) (get_node g k)) /\
+  (forall e, get_edge g' e = if memb e (gdels GL) then [] else get_edge g e) /\
+  hout g' = hout g /\ hnext g' = hnext g /\ wf_hg g'.
+Proof.
+  induction GL as [|es GL IH]; intros g W; cbn [fold_left].
+  - cbn zeta. split; [reflexivity|]. split; [intros k; symmetry; apply remove_all_nil|].
+    split; [intros e; reflexivity|]. split; [reflexivity|]. split; [reflexivity|exact W].
+  - destruct (compress_group_spec chi es g W) as (A1 & N1 & E1 & O1 & X1 & W1 & _). cbn zeta in *.
+    destruct (IH (compress_group chi g es) W1) as (A2 & N2 & E2 & O2 & X2 & W2). cbn zeta in *.
+    split; [rewrite A2; exact A1|]. split; [|split; [|split; [rewrite O2; exact O1|split; [rewrite X2; exact X1|exact W2]]]].
+    + intros k. rewrite N2, N1. unfold gdels. cbn [flat_map]. rewrite remove_all_app. reflexivity.
+    + intros e. rewrite E2, E1. unfold gdels. cbn [flat_map]. rewrite memb_app.
+      destruct (memb e (tl es)), (memb e (flat_map (@tl ix) GL)); reflexivity.
+Qed.
+
+(* sizes: only the first edge of a group with at least two edges is rewritten *)
+Definition is_head (GL : list (list ix)) (e : ix) : Prop :=
+  exists es, In es GL /\ 2 <= length es /\ hd 0 es = e.
+
+Lemma compress_groups_sz_other chi GL : forall g e, ~ is_head GL e ->
+  zget e (hsz (fold_left (fun g es => compress_group chi g es) GL g)) = zget e (hsz g).
+Proof.
+  induction GL as [|es GL IH]; intros g e Hh; cbn [fold_left]; [reflexivity|].
+  rewrite IH.
+  - destruct es as [|e1 [|e2 es]]; [reflexivity|reflexivity|].
+    unfold compress_group. cbn [hsz]. rewrite zget_zset_hg.
+    destruct (Nat.eqb_spec e e1) as [->|]; [|].
+    + exfalso. apply Hh. exists (e1 :: e2 :: es). split; [left; reflexivity|]. split; [cbn; lia|reflexivity].
+    + clear. generalize (e2 :: es) as dels. intros dels. revert g. induction dels as [|d dels IHd]; intros g; cbn [fold_left]; [reflexivity|].
+      rewrite IHd. reflexivity.
+  - intros (es' & Hin & Hl & Hd). apply Hh. exists es'. split; [right; exact Hin|split; assumption].
+Qed.
+
+Lemma nodup_app_disj {A} (a b : list A) : NoDup (a ++ b) -> NoDup a /\ NoDup b /\ forall x, In x a -> ~ In x b.
+Proof.
+  induction a as [|x a IH]; cbn; intros H; [split; [constructor|split; [exact H|tauto]]|].
+  inversion H as [|? ? Hn H']; subst. destruct (IH H') as (Na & Nb & Hd).
+  split; [constructor; [|exact Na]|split; [exact Nb|]].
+  - intros Hx. apply Hn, in_app_iff. left; exact Hx.
+  - intros y [<-|Hy]; [intros Hb; apply Hn, in_app_iff; right; exact Hb|apply Hd, Hy].
+Qed.
+
+Lemma size_of_ext s1 s2 es : (forall e, In e es -> zget e s1 = zget e s2) -> size_of s1 es = size_of s2 es.
+Proof. intros H. unfold size_of. f_equal. apply map_ext_in. exact H. Qed.
+
+Lemma compress_groups_sz_head chi GL : forall g, NoDup (concat GL) ->
+  forall es, In es GL -> 2 <= length es ->
+  zget (hd 0 es) (hsz (fold_left (fun g es => compress_group chi g es) GL g)) = Z.min (size_of (hsz g) es) chi.
+Proof.
+  induction GL as [|es0 GL IH]; intros g ND es Hin Hl; [destruct Hin|].
+  cbn [fold_left]. cbn [concat] in ND. destruct (nodup_app_disj _ _ ND) as (N0 & NG & Hd).
+  destruct Hin as [->|Hin].
+  - rewrite compress_groups_sz_other.
+    + destruct es as [|e1 [|e2 es]]; [cbn in Hl; lia|cbn in Hl; lia|].
+      unfold compress_group. cbn [hsz hd]. rewrite zget_zset_hg, Nat.eqb_refl. reflexivity.
+    + intros (es' & Hin' & Hl' & Hd'). destruct es as [|e1 es]; [cbn in Hl; lia|]. cbn [hd] in *.
+      apply (Hd e1); [left; reflexivity|]. apply in_concat. exists es'. split; [exact Hin'|].
+      destruct es' as [|x es']; [cbn in Hl'; lia|]. cbn in Hd'. subst x. left; reflexivity.
+  - rewrite (IH (compress_group chi g es0) NG es Hin Hl). f_equal.
+    apply size_of_ext. intros e He.
+    destruct es0 as [|e1 [|e2 es0]]; [reflexivity|reflexivity|].
+    unfold compress_group. cbn [hsz]. rewrite zget_zset_hg.
+    destruct (Nat.eqb_spec e e1) as [->|].
+    + exfalso. apply (Hd e1); [left; reflexivity|]. apply in_concat. exists es. split; assumption.
+    + clear. generalize (e2 :: es0) as dels. intros dels. revert g. induction dels as [|d dels IHd]; intros g; cbn [fold_left]; [reflexivity|].
+      rewrite IHd. reflexivity.
+Qed.
+
+(* incidences: a partition of the non-output edges into groups with equal node sets *)
+Definition gflat (gr : list (list nat * list ix)) : list ix := flat_map snd gr.
+
+Lemma hg_list_nat_eqb_eq a b : list_nat_eqb a b = true <-> a = b.
+Proof.
+  unfold list_nat_eqb. revert b. induction a as [|x a IH]; intros [|y b]; cbn; split; try discriminate; try reflexivity.
+  - intros H. apply andb_true_iff in H. destruct H as [H1 H2]. apply Nat.eqb_eq in H1. apply IH in H2. congruence.
+  - intros H. inversion H; subst. rewrite Nat.eqb_refl. apply IH. reflexivity.
+Qed.
+
+Lemma group_add_perm key e gr : Permutation (gflat (group_add key e gr)) (e :: gflat gr).
+Proof.
+  induction gr as [|[k es] gr IH]; cbn [group_add].
+  - cbn. reflexivity.
+  - destruct (list_nat_eqb k key).
+    + unfold gflat. cbn [flat_map snd]. rewrite <- app_assoc. cbn [Datatypes.app].
+      symmetry. apply Permutation_middle.
+    + unfold gflat in *. cbn [flat_map snd]. rewrite IH. symmetry. apply Permutation_middle.
+Qed.
+
+Lemma group_add_keys (P : list nat -> ix -> Prop) key e gr :
+  (forall kv x, In kv gr -> In x (snd kv) -> P (fst kv) x) -> P key e ->
+  forall kv x, In kv (group_add key e gr) -> In x (snd kv) -> P (fst kv) x.
+Proof.
+  induction gr as [|[k es] gr IH]; cbn [group_add]; intros H He kv x Hin Hx.
+  - destruct Hin as [<-|[]]. cbn in *. destruct Hx as [<-|[]]. exact He.
+  - destruct (list_nat_eqb k key) eqn:Ek.
+    + apply hg_list_nat_eqb_eq in Ek. subst k. destruct Hin as [<-|Hin].
+      * cbn [fst snd] in *. apply in_app_iff in Hx. destruct Hx as [Hx|[<-|[]]]; [|exact He].
+        apply (H (key, es) x); [left; reflexivity|exact Hx].
+      * apply (H kv x); [right; exact Hin|exact Hx].
+    + destruct Hin as [<-|Hin].
+      * apply (H (k, es) x); [left; reflexivity|exact Hx].
+      * apply IH; try assumption. intros kv' x' Hin' Hx'. apply (H kv' x'); [right; exact Hin'|exact Hx'].
+Qed.
+
+Definition inc_step (g : hg) (gr : list (list nat * list ix)) (e : ix) :=
+  if memb e (hout g) then gr else group_add (fset (get_edge g e)) e gr.
+
+Lemma incidences_fold g (L : list ix) : forall gr,
+  (forall kv x, In kv gr -> In x (snd kv) -> fst kv = fset (get_edge g x)) ->
+  let gs := fold_left (inc_step g) L gr in
+  Permutation (gflat gs) (rev (filter (fun e => negb (memb e (hout g))) L) ++ gflat gr) /\
+  (forall kv x, In kv gs -> In x (snd kv) -> fst kv = fset (get_edge g x)).
+Proof.
+  induction L as [|e L IH]; intros gr H; cbn [fold_left filter].
+  - cbn. split; [reflexivity|exact H].
+  - assert (H' : forall kv x, In kv (inc_step g gr e) -> In x (snd kv) -> fst kv = fset (get_edge g x)).
+    { unfold inc_step. destruct (memb e (hout g)); [exact H|].
+      apply (group_add_keys (fun key x => key = fset (get_edge g x))); [exact H|reflexivity]. }
+    destruct (IH (inc_step g gr e) H') as [A B]. cbn zeta in *. split; [|exact B].
+    rewrite A. unfold inc_step. destruct (memb e (hout g)); cbn [negb]; [reflexivity|].
+    cbn [rev]. rewrite group_add_perm, <- app_assoc. cbn [Datatypes.app]. reflexivity.
+Qed.
+
+Theorem incidences_spec g (L : list ix) : NoDup L ->
+  let gs := incidences g L in
+  NoDup (gflat gs) /\
+  (forall x, In x (gflat gs) <-> In x L /\ ~ In x (hout g)) /\
+  (forall kv x, In kv gs -> In x (snd kv) -> fst kv = fset (get_edge g x)).
+Proof.
+  intros ND. cbn zeta.
+  destruct (incidences_fold g L [] (fun kv x H => match H with end)) as [A B]. cbn zeta in *.
+  change (fold_left (inc_step g) L []) with (incidences g L) in *.
+  rewrite app_nil_r in A.
+  split; [|split; [|exact B]].
+  - apply (Permutation_NoDup (Permutation_sym A)). apply NoDup_rev, NoDup_filter, ND.
+  - intros x. split.
+    + intros H. apply (Permutation_in _ A) in H. rewrite <- in_rev, filter_In, negb_true_iff, memb_false in H. exact H.
+    + intros H. apply (Permutation_in _ (Permutation_sym A)). rewrite <- in_rev, filter_In, negb_true_iff, memb_false. exact H.
+Qed.
+
+Lemma gflat_concat gs : gflat gs = concat (map snd gs).
+Proof. unfold gflat. induction gs as [|kv gs IH]; cbn; [reflexivity|]. rewrite IH. reflexivity. Qed.
+
+Lemma hg_compress_unfold chi edges g :
+  hg_compress chi edges g =
+  fold_left (fun g es => compress_group chi g es) (map snd (incidences g (unique edges))) g.
+Proof.
+  unfold hg_compress. generalize (incidences g (unique edges)) as gs. intros gs. revert g.
+  induction gs as [|kv gs IH]; intros g; cbn [fold_left map]; [reflexivity|apply IH].
+Qed.
+
+(* fset: same elements *)
+Lemma in_insert_by (le : nat -> nat -> bool) x l y : In y (insert_by le x l) <-> y = x \/ In y l.
+Proof.
+  induction l as [|z l IH]; cbn; [intuition|]. destruct (le z x); cbn; [rewrite IH|]; intuition.
+Qed.
+Lemma in_sort_by (le : nat -> nat -> bool) l y : In y (sort_by le l) <-> In y l.
+Proof.
+  unfold sort_by. assert (G : forall l acc, In y (fold_left (fun acc x => insert_by le x acc) l acc) <-> In y l \/ In y acc).
+  { clear l. induction l as [|x l IH]; intros acc; cbn [fold_left]; [cbn; tauto|].
+    rewrite IH, in_insert_by. cbn. intuition. }
+  rewrite G. cbn. tauto.
+Qed.
+Lemma in_fset l y : In y (fset l) <-> In y l.
+Proof. unfold fset. rewrite hu_unique_in. apply in_sort_by. Qed.
+Lemma fset_eq_in l1 l2 : fset l1 = fset l2 -> forall y, In y l1 <-> In y l2.
+Proof. intros E y. rewrite <- (in_fset l1), <- (in_fset l2), E. reflexivity. Qed.
+
+(* ---------- compress, top level ---------- *)
+Theorem compress_spec chi edges g : wf_hg g ->
+  let GL := map snd (incidences g (unique edges)) in
+  let D := gdels GL in
+  let g' := hg_compress chi edges g in
+  akeys (hnodes g') = akeys (hnodes g) /\
+  (forall k, get_node g' k = remove_all D (get_node g k)) /\
+  (forall e, get_edge g' e = if memb e D then [] else get_edge g e) /\
+  hout g' = hout g /\ hnext g' = hnext g /\ wf_hg g' /\
+  NoDup (concat GL) /\
+  (forall es e, In es GL -> In e es -> In e edges /\ ~ In e (hout g)) /\
+  (forall es e1 e2, In es GL -> In e1 es -> In e2 es -> forall k, In k (get_edge g e1) <-> In k (get_edge g e2)) /\
+  (forall e, ~ is_head GL e -> zget e (hsz g') = zget e (hsz g)) /\
+  (forall es, In es GL -> 2 <= length es -> zget (hd 0 es) (hsz g') = Z.min (size_of (hsz g) es) chi).
+Proof.
+  intros W. cbn zeta. rewrite hg_compress_unfold.
+  destruct (incidences_spec g (unique edges) (hu_unique_nodup edges)) as (ND & Hin & Hkey). cbn zeta in *.
+  set (gs := incidences g (unique edges)) in *.
+  destruct (compress_groups_spec chi (map snd gs) g W) as (A & N & E & O & X & W').
+  cbn zeta in *.
+  split; [exact A|]. split; [exact N|]. split; [exact E|]. split; [exact O|]. split; [exact X|]. split; [exact W'|].
+  rewrite gflat_concat in ND. split; [exact ND|].
+  assert (Hmem : forall es e, In es (map snd gs) -> In e es -> In e (gflat gs)).
+  { intros es e Hes He. rewrite gflat_concat. apply in_concat. exists es. split; assumption. }
+  split; [|split; [|split]].
+  - intros es e Hes He. pose proof (Hmem es e Hes He) as Hm. apply Hin in Hm. rewrite hu_unique_in in Hm. exact Hm.
+  - intros es e1 e2 Hes H1 H2 k. apply in_map_iff in Hes. destruct Hes as (kv & <- & Hkv).
+    apply fset_eq_in. rewrite <- (Hkey kv e1 Hkv H1), <- (Hkey kv e2 Hkv H2). reflexivity.
+  - intros e He. apply compress_groups_sz_other, He.
+  - intros es Hes Hl. apply compress_groups_sz_head; assumption.
+Qed.
+
+(* a removed edge has a keeper with the same node set that is not removed *)
+Lemma head_not_del GL : NoDup (concat GL) -> forall es, In es GL -> forall h, hd_error es = Some h -> ~ In h (gdels GL).
+Proof.
+  induction GL as [|es0 GL IH]; intros ND es Hin h Hh; [destruct Hin|].
+  cbn [concat] in ND. destruct (nodup_app_disj _ _ ND) as (N0 & NG & Hd).
+  unfold gdels. cbn [flat_map]. rewrite in_app_iff. fold (gdels GL). intros [H|H].
+  - (* h in tl es0 *)
+    destruct Hin as [->|Hin].
+    + destruct es as [|x es]; [discriminate|]. cbn in Hh. inversion Hh; subst x. cbn [tl] in H.
+      inversion N0; contradiction.
+    + assert (In h es0) by (destruct es0; [destruct H|right; exact H]).
+      apply (Hd h H0). apply in_concat. exists es. split; [exact Hin|].
+      destruct es; [discriminate|]. cbn in Hh. inversion Hh; subst. left; reflexivity.
+  - destruct Hin as [->|Hin].
+    + assert (In h es) by (destruct es; [discriminate|cbn in Hh; inversion Hh; subst; left; reflexivity]).
+      apply (Hd h H0). unfold gdels in H. apply in_flat_map in H. destruct H as (es' & Hes' & Ht).
+      apply in_concat. exists es'. split; [exact Hes'|]. destruct es'; [destruct Ht|right; exact Ht].
+    + apply (IH NG es Hin h Hh H).
+Qed.
+
+Lemma del_has_keeper GL d : In d (gdels GL) ->
+  exists es h, In es GL /\ hd_error es = Some h /\ In d (tl es) /\ In d es /\ In h es /\ 2 <= length es.
+Proof.
+  unfold gdels. intros H. apply in_flat_map in H. destruct H as (es & Hes & Ht).
+  destruct es as [|h es]; [destruct Ht|]. exists (h :: es), h. cbn [tl] in Ht.
+  split; [exact Hes|]. split; [reflexivity|]. split; [exact Ht|]. split; [right; exact Ht|]. split; [left; reflexivity|].
+  destruct es; [destruct Ht|cbn; lia].
+Qed.
